@@ -6,6 +6,7 @@ package interp
 
 import (
 	"fmt"
+	"math/bits"
 	"go/types"
 	"os"
 	"strings"
@@ -62,6 +63,7 @@ func (ex *explorer) observe(label string, v value) {
 				n := fmt.Sprintf("o!%d", ex.ndef)
 				ex.decls = append(ex.decls, fmt.Sprintf("(define-fun %s () (_ BitVec 8) %s)", n, b.(*symv).term))
 				ex.obsTerms = append(ex.obsTerms, n)
+				ex.obsKind[n] = "byte"
 				parts = append(parts, "@"+n)
 			}
 		}
@@ -130,6 +132,7 @@ func symIntrinsic(fr *frame, fn *ssa.Function, args []value) (value, bool) {
 		key := fmt.Sprintf("%s!%d", name, ex.nsym[name])
 		c := ex.choice(n)
 		ex.event(fmt.Sprintf("C:%s=%d", key, c))
+		ex.choices[key] = fmt.Sprintf("%d", c)
 		return c, true
 	case "verifAssume":
 		switch c := args[0].(type) {
@@ -154,8 +157,18 @@ func symIntrinsic(fr *frame, fn *ssa.Function, args []value) (value, bool) {
 		switch c := args[0].(type) {
 		case bool:
 			if !c {
-				_, m := ex.check("", true)
-				ex.recordViolation(fr, "assert", label, relPos(ex.cfg, fr.i.prog.Fset, fr.caller.callPos()), "concrete false on path", m)
+				r, m := ex.check("", true)
+				switch r {
+				case "sat":
+					ex.recordViolation(fr, "assert", label, relPos(ex.cfg, fr.i.prog.Fset, fr.caller.callPos()), "concrete false on path", m)
+				case "unsat":
+					panic(pathAbort{"infeasible path"})
+				default:
+					// the path's feasibility is undecided: neither a violation nor a pass
+					ex.res.mu.Lock()
+					ex.res.Undischarged[label]++
+					ex.res.mu.Unlock()
+				}
 			}
 		case *symv:
 			r, m := ex.check(not1(c.term), true)
@@ -186,6 +199,25 @@ func symIntrinsic(fr *frame, fn *ssa.Function, args []value) (value, bool) {
 	case "verifObserveInt", "verifObserveBool", "verifObserveStr", "verifObserveFloat":
 		ex.observe(argStr(args[0]), args[1])
 		return nil, true
+	case "verifMulFits":
+		// spec: does the exact (128-bit) product of two int64 fit in int64?
+		if allConcrete(args) {
+			a, b := args[0].(int64), args[1].(int64)
+			hi, lo := mulS128(a, b)
+			return (hi == 0 && lo>>63 == 0) || (hi == ^uint64(0) && lo>>63 == 1), true
+		}
+		a, b := toTermV(args[0]), toTermV(args[1])
+		p := "(bvmul ((_ sign_extend 64) " + a.term + ") ((_ sign_extend 64) " + b.term + "))"
+		return ex.named(mkBool("(= " + p + " ((_ sign_extend 64) ((_ extract 63 0) " + p + ")))")), true
+	case "verifMulMod":
+		// spec: (a*b) mod m on uint64 with a 128-bit intermediate product, m != 0
+		a, b, m := toTermV(args[0]), toTermV(args[1]), toTermV(args[2])
+		p := "(bvmul ((_ zero_extend 64) " + a.term + ") ((_ zero_extend 64) " + b.term + "))"
+		r := "((_ extract 63 0) (bvurem " + p + " ((_ zero_extend 64) " + m.term + ")))"
+		if allConcrete(args) {
+			return mulModU(args[0].(uint64), args[1].(uint64), args[2].(uint64)), true
+		}
+		return ex.named(mkBV(64, r)), true
 	case "verifTier":
 		return ex.cfg.Tier, true
 	case "verifEngine":
@@ -289,4 +321,21 @@ func unwrapFor(ch *symchan, v value) value {
 		return it.v
 	}
 	return v
+}
+
+func mulS128(a, b int64) (hi, lo uint64) {
+	hi, lo = bits.Mul64(uint64(a), uint64(b))
+	if a < 0 {
+		hi -= uint64(b)
+	}
+	if b < 0 {
+		hi -= uint64(a)
+	}
+	return
+}
+
+func mulModU(a, b, m uint64) uint64 {
+	hi, lo := bits.Mul64(a, b)
+	_, r := bits.Div64(hi%m, lo, m)
+	return r
 }
